@@ -1,6 +1,6 @@
 (* Extract/Extract.v -- extraction of the executable model to OCaml (ExtrOcamlBasic + ExtrOcamlString only). *)
 From Coq Require Import Extraction ExtrOcamlBasic ExtrOcamlString.
-From AT Require Import Num Vec Aff Farkas FM Equiv PTree Cells Abs.
+From AT Require Import Num Vec Aff Farkas FM Equiv PTree Cells Abs ArenaEval ArenaCompose.
 Extraction Blacklist List String Int.
 Extraction "model_c02.ml"
   qc_of_float qz qfrac qleb qltb qeqb Qcplus Qcmult Qcopp Qcminus Qcdiv
@@ -10,4 +10,5 @@ Extraction "model_c02.ml"
   eval term route compose apply_func lift comp_schema wfb outsb size nterms
   pieces tree_equiv check_cex out_eqb
   aget aset alen akeys
-  abs_at abs_tree.
+  abs_at abs_tree
+  arena_compose next_key evaluate_arena find_terminal_arena.
